@@ -60,7 +60,8 @@ def parseWins (mods : List Module) (field : String) : Option (List (List Win.Rec
 
 /-- `chain pre <technique> exp:<frames> [win:<records>] <walk fields>`: the decidable precondition
     of the C04 theorems on a generated case;
-    `chain walk win:<records> <walk fields>`: the walk itself with STACK WIN records present -/
+    `chain walk win:<records> <walk fields>`: the walk itself with STACK WIN records present;
+    `chain layout fp <base> <s0> <f0> <tail> <gap:ret,..|->`: the generator's x86-64 frame-pointer layout -/
 def handleChain (args : List String) : String :=
   match args with
   | "walk" :: win :: rest =>
@@ -72,6 +73,21 @@ def handleChain (args : List String) : String :=
         showWalk r.arch (walk env r.mem r.ctx)
       | none => "bad-op"
     | none => "bad-op"
+  | ["layout", "fp", base, s0, f0, tail, calls] =>
+    -- the generator's frame-pointer layout on x86-64 as a function of its parameters
+    let cs : Option (List (Nat × Nat)) :=
+      if calls = "-" then some []
+      else (pieces calls ",").mapM fun c =>
+        match c.splitOn ":" with
+        | [g, r] => do let g ← optNat g; let r ← optNat r; some (g, r)
+        | _ => none
+    match optNat base, optNat s0, optNat f0, optNat tail, cs with
+    | some b, some s, some f, some t, some cs =>
+      if s ≤ f ∧ b ≤ U64MAX ∧ f ≤ 4096 ∧ t ≤ 4096 ∧ cs.all (fun c => decide (c.1 ≤ 4096)) then
+        let showExp := fun (e : Exp) => s!"{e.ret},{e.sp},{(e.fp.map toString).getD "-"}"
+        s!"rsp={wAddr b s} rbp={wAddr b f} stack:{hex (wordsMem b (fpWords b f t cs)).bytes.toList} exp:{"|".intercalate ((fpChain b f cs).map showExp)}"
+      else "bad-op"
+    | _, _, _, _, _ => "bad-op"
   | "pre" :: tech :: exp :: rest =>
     let (win, rest) := match rest with
       | f :: more => if f.startsWith "win:" then (f, more) else ("win:-", rest)
